@@ -98,6 +98,9 @@ pub trait Retracer {
     fn text(&self, input: &str) -> Result<String, String>;
     fn typed(&self, trace: &TraceAst) -> TraceAst;
     fn sig(&self, s: &str) -> Option<SigOut>;
+    /// Every way of consuming the iterator returned by `remap_frame` (nth, skip, step_by, count, last, a clone taken
+    /// mid-way, next() after exhaustion, size_hint) must agree with plain next(); returns the number of frames.
+    fn frame_adaptors<'a>(&'a self, class: &'a str, method: &'a str, line: u64, params: Option<&'a str>) -> Result<usize, String>;
 }
 
 macro_rules! impl_retracer {
@@ -132,6 +135,82 @@ macro_rules! impl_retracer {
             /// which outlive `'a` by construction of the callers in this module.
             fn unsafe_extend<'a>(s: &str) -> &'a str {
                 unsafe { std::mem::transmute::<&str, &'a str>(s) }
+            }
+
+            type OwnedFrame = (String, String, u64, Option<String>, Option<String>);
+            fn own(f: &StackFrame<'_>) -> OwnedFrame {
+                (f.class().to_string(), f.method().to_string(), f.line() as u64, f.file().map(|s| s.to_string()), f.parameters().map(|s| s.to_string()))
+            }
+
+            /// `mk` yields a fresh iterator over the same answer each time it is called
+            fn adaptors<'f, I: Iterator<Item = StackFrame<'f>> + Clone>(mk: impl Fn() -> I) -> Result<usize, String> {
+                let all: Vec<OwnedFrame> = mk().map(|f| own(&f)).collect();
+                let n = all.len();
+                let c = mk().count();
+                if c != n {
+                    return Err(format!("count() = {c}, next() yields {n} frames"));
+                }
+                let l = mk().last().map(|f| own(&f));
+                if l.as_ref() != all.last() {
+                    return Err(format!("last() = {l:?}, next() ends with {:?}", all.last()));
+                }
+                // every position for short answers, a spread of positions for long ones (each probe is O(n))
+                let ks: Vec<usize> = if n <= 40 { (0..=n + 1).collect() } else { vec![0, 1, 2, 3, 31, 32, 33, n / 2, n - 2, n - 1, n, n + 1] };
+                for k in ks {
+                    let got = mk().nth(k).map(|f| own(&f));
+                    if got.as_ref() != all.get(k) {
+                        return Err(format!("nth({k}) = {got:?}, next() yields {:?} at that position (all: {all:?})", all.get(k)));
+                    }
+                    let got: Vec<OwnedFrame> = mk().skip(k).map(|f| own(&f)).collect();
+                    if got[..] != all[k.min(n)..] {
+                        return Err(format!("skip({k}) yields {got:?}, expected {:?}", &all[k.min(n)..]));
+                    }
+                    // nth twice in a row: positions k and 2k+1
+                    let mut it = mk();
+                    let a = it.nth(k).map(|f| own(&f));
+                    let b = it.nth(k).map(|f| own(&f));
+                    if a.as_ref() != all.get(k) || b.as_ref() != all.get(2 * k + 1) {
+                        return Err(format!("nth({k}) twice = {a:?}, {b:?}; expected {:?}, {:?}", all.get(k), all.get(2 * k + 1)));
+                    }
+                }
+                for step in [2usize, 3] {
+                    let got: Vec<OwnedFrame> = mk().step_by(step).map(|f| own(&f)).collect();
+                    let want: Vec<OwnedFrame> = all.iter().step_by(step).cloned().collect();
+                    if got != want {
+                        return Err(format!("step_by({step}) yields {got:?}, expected {want:?}"));
+                    }
+                }
+                // size_hint brackets the remaining length at every position; a clone taken mid-way continues alike;
+                // the iterator stays exhausted
+                let mut it = mk();
+                for pos in 0..=n {
+                    if n > 40 && pos > 3 && pos + 3 < n && pos % (n / 16) != 0 {
+                        let x = it.next().map(|f| own(&f));
+                        if x.as_ref() != all.get(pos) {
+                            return Err(format!("next() #{pos} = {x:?} while a fresh iterator gave {:?}", all.get(pos)));
+                        }
+                        continue;
+                    }
+                    let (lo, hi) = it.size_hint();
+                    let rem = n - pos;
+                    if lo > rem || hi.map_or(false, |h| h < rem) {
+                        return Err(format!("size_hint() = ({lo}, {hi:?}) with {rem} frames remaining"));
+                    }
+                    let rest: Vec<OwnedFrame> = it.clone().map(|f| own(&f)).collect();
+                    if rest[..] != all[pos..] {
+                        return Err(format!("a clone taken after {pos} frames yields {rest:?}, expected {:?}", &all[pos..]));
+                    }
+                    let x = it.next().map(|f| own(&f));
+                    if x.as_ref() != all.get(pos) {
+                        return Err(format!("next() #{pos} = {x:?} while a fresh iterator gave {:?}", all.get(pos)));
+                    }
+                }
+                for _ in 0..3 {
+                    if let Some(f) = it.next() {
+                        return Err(format!("next() after exhaustion yields {:?}", own(&f)));
+                    }
+                }
+                Ok(n)
             }
 
             pub fn to_trace<'a>(t: &'a TraceAst) -> StackTrace<'a> {
@@ -216,6 +295,14 @@ macro_rules! impl_retracer {
                     let t = to_trace(trace);
                     from_trace(&self.0.remap_stacktrace_typed(&t))
                 }
+                fn frame_adaptors<'a>(&'a self, class: &'a str, method: &'a str, line: u64, params: Option<&'a str>) -> Result<usize, String> {
+                    let m: &'a ProguardMapper<'a> = &self.0;
+                    let f = match params {
+                        Some(p) => StackFrame::with_parameters(class, method, p),
+                        None => StackFrame::new(class, method, line as usize),
+                    };
+                    adaptors(|| m.remap_frame(&f))
+                }
                 fn sig(&self, s: &str) -> Option<SigOut> {
                     self.0.deobfuscate_signature(s).map(|d| SigOut {
                         params: d.parameters_types().map(|s| s.to_string()).collect(),
@@ -258,6 +345,14 @@ macro_rules! impl_retracer {
                 fn typed(&self, trace: &TraceAst) -> TraceAst {
                     let t = to_trace(trace);
                     from_trace(&self.0.remap_stacktrace_typed(&t))
+                }
+                fn frame_adaptors<'a>(&'a self, class: &'a str, method: &'a str, line: u64, params: Option<&'a str>) -> Result<usize, String> {
+                    let m: &'a ProguardCache<'a> = &self.0;
+                    let f = match params {
+                        Some(p) => StackFrame::with_parameters(class, method, p),
+                        None => StackFrame::new(class, method, line as usize),
+                    };
+                    adaptors(|| m.remap_frame(&f))
                 }
                 fn sig(&self, s: &str) -> Option<SigOut> {
                     self.0.deobfuscate_signature(s).map(|d| SigOut {
